@@ -17,6 +17,7 @@ import (
 	"strconv"
 	"strings"
 	"sync"
+	"syscall"
 	"time"
 
 	"github.com/openebs/jiva/backend/remote"
@@ -171,7 +172,23 @@ func (r *runner) eng(op Op) (string, string) {
 		return "ok", ""
 	case "write":
 		_, err := s.WriteAt(pattern(op.ID), (op.ID%nblk)*blk)
+		if err != nil {
+			return rc(err), err.Error()
+		}
 		return rc(err), ""
+	case "writefail":
+		// a write whose data write fails in the file system: every descriptor this process holds on the
+		// head image is replaced by a read-only one for the duration of the call (pwrite: EBADF)
+		restore, err := breakHeadWrites(r.dir)
+		if err != nil {
+			return "err", "harness: " + err.Error()
+		}
+		_, werr := s.WriteAt(pattern(op.ID), (op.ID%nblk)*blk)
+		restore()
+		if werr == nil && s.Replica() != nil && restoreCount > 0 {
+			return "ok", "write succeeded although the head was not writable"
+		}
+		return rc(werr), ""
 	case "read":
 		buf := make([]byte, blk)
 		_, err := s.ReadAt(buf, 0)
@@ -481,6 +498,60 @@ func listen(port int) error {
 		}
 	}()
 	return nil
+}
+
+var restoreCount int
+
+// breakHeadWrites swaps every descriptor of this process that refers to the head image in dir for a
+// read-only descriptor of the same file; the returned function swaps the originals back.
+func breakHeadWrites(dir string) (func(), error) {
+	ents, err := os.ReadDir("/proc/self/fd")
+	if err != nil {
+		return nil, err
+	}
+	type sw struct{ fd, saved int }
+	var sws []sw
+	restoreCount = 0
+	// first find the descriptors (descriptor numbers freed by the listing itself are reused below)
+	type hit struct {
+		fd   int
+		link string
+	}
+	var hits []hit
+	for _, e := range ents {
+		fd, err := strconv.Atoi(e.Name())
+		if err != nil {
+			continue
+		}
+		link, err := os.Readlink("/proc/self/fd/" + e.Name())
+		if err != nil || filepath.Dir(link) != dir || !strings.HasPrefix(filepath.Base(link), "volume-head-") || !strings.HasSuffix(link, ".img") {
+			continue
+		}
+		hits = append(hits, hit{fd, link})
+	}
+	for _, h := range hits {
+		saved, err := syscall.Dup(h.fd)
+		if err != nil {
+			return nil, err
+		}
+		ro, err := syscall.Open(h.link, syscall.O_RDONLY, 0)
+		if err != nil {
+			syscall.Close(saved)
+			return nil, err
+		}
+		if err := syscall.Dup2(ro, h.fd); err != nil {
+			return nil, err
+		}
+		syscall.Close(ro)
+		sws = append(sws, sw{h.fd, saved})
+	}
+	restoreCount = len(sws)
+	return func() {
+		for _, x := range sws {
+			syscall.Dup2(x.saved, x.fd)
+			syscall.Close(x.saved)
+		}
+	}, nil
 }
 
 func main() {
